@@ -20,7 +20,7 @@ Record cobs := {
   b_calls : list bytes;         (* the byte strings the signer was called with, in order *)
   b_time_ok : bool;
   b_pred_err : bool;            (* the predicate was invoked during the call and returned an error *)
-  b_final : option bytes;       (* the value under the format's name re-read after later Process calls on other events (same
+  b_final : option (option bytes); (* None: unchanged (compared by the harness with its copy); Some x: the value under the format's name re-read after later Process calls on other events (same
                                    and other goroutines) *)
   b_later : N }.                (* number of later Process calls after which it was first seen changed; 0: never *)           (* Go's time parser reads the stored document's time member back as the event's instant
                                    (true when nothing is stored) *)
@@ -28,7 +28,13 @@ Record kcase := {
   k_cfg : kcfg; k_evnil : bool; k_type : bytes; k_time : option bytes; k_payload : kpayload; k_pre : table;
   k_fresh : bytes; k_obs : cobs }.
 
+(* a history on ONE FormatterFilter: Process calls (each with its own event) and Rotate calls *)
+Inductive hstep :=
+| HProc (c : kcase)                              (* the k_cfg of c is ignored: the configuration is the history's state *)
+| HRot (signer : N) (tag : bytes) (err : bool).  (* Rotate(signer of that kind; 0 = nil), observed: an error was returned *)
+
 Inductive ccase :=
+| CHist (id : N) (k : kcfg) (steps : list hstep)
 | CCe (id : N) (c : kcase)
 | CFresh (id : N) (ids : list bytes)       (* all fresh ids the sequential part of the run observed *)
 | CConc (id : N) (events : N) (dups : list bytes) (panics : N).
@@ -178,11 +184,30 @@ Definition run_ce (c : kcase) : list kind :=
   (if b_err o && negb (b_pred_err o) then (if table_eqb (k_pre c) (b_table o) then [] else [KErrStored]) else []) ++
   (* observation-only: the stored document is still the same when re-read after later Process calls on other events; if it
      is not, the oracle is run again on what is there now *)
-  (if obeqb (tget key (b_table o)) (b_final o) then []
-   else KStoredMutated :: (if negb (b_err o) then doc_checks k c (b_calls o) true (b_final o) else [])).
+  (let final := match b_final o with None => tget key (b_table o) | Some x => x end in
+   if obeqb (tget key (b_table o)) final then []
+   else KStoredMutated :: (if negb (b_err o) then doc_checks k c (b_calls o) true final else [])).
+
+Definition set_cfg (c : kcase) (k : kcfg) : kcase :=
+  {| k_cfg := k; k_evnil := k_evnil c; k_type := k_type c; k_time := k_time c; k_payload := k_payload c; k_pre := k_pre c;
+     k_fresh := k_fresh c; k_obs := k_obs c |}.
+Definition with_signer (k : kcfg) (s : N) (tag : bytes) : kcfg :=
+  {| k_nil := k_nil k; k_source := k_source k; k_schema := k_schema k; k_format := k_format k; k_pred := k_pred k;
+     k_signer := s; k_tag := tag; k_types := k_types k |}.
+(* the signer is the node's state: every event is judged under the signer in force when it is processed *)
+Fixpoint run_hist (k : kcfg) (i : N) (steps : list hstep) : list (N * N * kind) :=
+  match steps with
+  | [] => []
+  | HProc c :: rest => map (fun x => (i, 6, x)) (run_ce (set_cfg c k)) ++ run_hist k (N.succ i) rest
+  | HRot s tag err :: rest =>
+      let refused := s =? 0 in
+      (if Bool.eqb err refused then [] else [(i, 6, KErr)]) ++
+      run_hist (if refused then k else with_signer k s tag) (N.succ i) rest
+  end.
 
 Definition run_case (c : ccase) : list (N * (N * N * kind)) :=
   match c with
+  | CHist id k steps => map (fun m => (id, m)) (run_hist k 0 steps)
   | CCe id k => map (fun x => (id, (match x with KStoredMutated => b_later (k_obs k) | _ => 0 end, opkind k, x))) (run_ce k)
   | CFresh id ids => if forallb nonempty ids && nodupb ids then [] else [(id, (0, 4, KFresh))]
   | CConc id n dups panics =>
